@@ -1,7 +1,8 @@
 """C20 — transparency, Tower readiness contract, listeners only observe: generator and implementation-side monitors.
 
-Header: `stack layers=<outermost,…,innermost> inner=strict|climit|buffer [ready=<script>] [cl=<n>] [lp=<mask>]`
-(see harness/src/mw_stack.rs). Boundary `b<j>` is the outer boundary of layer j (0 = the one the harness drives),
+Header: `stack layers=<outermost,…,innermost> inner=strict|climit|buffer [ready=<script>] [cl=<n>] [lp=<mask>]
+[rec=<ms> recall=1] [lq=<n> lqinner=<plan>] [lqe=<n> lqat=<layer index>]` (see harness/src/mw_stack.rs); `arrive … keep=1` + `release c`:
+the caller keeps its finished call future. The key of the keyed layers (coalesce, cache) is the tag modulo 1000. Boundary `b<j>` is the outer boundary of layer j (0 = the one the harness drives),
 `b<n>` the boundary of the inner service.
 """
 import re
@@ -225,10 +226,95 @@ def gen_probing_listener(rng):
     return {"header": header, "ops": ops}
 
 
+KEYED = ["coalesce", "coalesce", "coalesce", "cache", "cache", "hedge1", "hedge_fire", "hedge"]
+
+
+def gen_same_key_kept(rng):
+    """requests that share a key (tag mod 1000: the key of coalesce and cache), made by callers that KEEP their finished call
+    future (`keep=1`, a pinned future in a select loop, a future stored in a struct) and `release` it later or never: a
+    finished call is not in flight and holds nothing — a later request with its key is forwarded like any other (unless a
+    cache has the finished call's response). Mostly one after the other; sometimes overlapping (then coalesce legitimately
+    joins them). The keyed layer is the outermost one in half of the cases: the future the caller keeps IS its future."""
+    keyed = rng.choice(KEYED)
+    above = [] if rng.random() < 0.5 else [rng.choice(QUIET + ["retry", "cache", "coalesce"]) for _ in range(rng.randint(1, 2))]
+    below = [rng.choice(QUIET + ["retry", "hedge1"]) for _ in range(rng.choice([0, 0, 1, 2]))]
+    layers = above + [keyed] + below
+    inner = rng.choice(["strict", "strict", "strict", "climit", "buffer"])
+    header = "stack layers=%s inner=%s" % (",".join(layers), inner)
+    if inner == "climit":
+        header += " cl=16"      # a kept ConcurrencyLimit future keeps its permit (tower's own behaviour): never the last one
+    header += " lp=%d" % rng.choice([0, 0, 0, 3, 7])
+    base = rng.sample(range(1, 99), 2)
+    ops, kept, nerr, seen = [], [], 0, {}
+    for c in range(1, rng.randint(3, 6)):
+        b = base[0] if rng.random() < 0.8 else base[1]
+        seen[b] = seen.get(b, 0) + 1
+        steps = _script(rng, rng.choice(["ok", "ok", "ok", "err2", "err1"]))
+        nerr += sum(1 for x in steps if "err" in x)
+        keep = rng.random() < 0.7
+        ops.append("arrive %d tag=%d inner=%s%s%s" % (c, b + 1000 * (seen[b] - 1), ",".join(steps), " keep=1" if keep else "",
+                                                       rng.choice(["", "", " how=held"])))
+        if keep:
+            kept.append(c)
+        if rng.random() < 0.2:
+            continue                      # the next request overlaps this one
+        ops.append("settle")
+        for _ in range(2 * len(steps) + 1):
+            ops += ["adv %d" % rng.choice([5, 25]), "settle"]
+        if kept and rng.random() < 0.3:
+            ops.append("release %d" % kept.pop(rng.randrange(len(kept))))
+            ops.append("settle")
+    _drain(ops, layers, nerr)
+    if kept and rng.random() < 0.5:
+        ops.insert(len(ops) - 1, "release %d" % rng.choice(kept))
+        ops.insert(len(ops) - 1, "settle")
+    return {"header": header, "ops": ops}
+
+
+# layers with listeners on the call path (admission, rejection, retry, pass-through, attempt started; and, below the
+# outermost layer, completion events as well): candidates for `lqat`
+MIDCALL = ["chaos", "chaos", "chaos", "bulkhead", "ratelimiter", "circuit", "retry", "hedge1", "hedge_fire", "hedge_parallel",
+           "timelimiter", "fallback", "cache"]
+
+
+def gen_callpath_probe(rng):
+    """a listener of ANY event of ANY layer that itself sends a request through the service (`lqe`, `lqat`): a diagnostic
+    probe, a warm-up call, a metrics flush through the same client. The emitting call is still in flight, so what the probe
+    is told is not compared — but it must come back, the emitting call must end as in the twin stack (whose probe is made
+    after the step), and the listeners registered after the probing one must still be told the event. Sequential
+    requests, plain inner service, no layer near a capacity limit (a one-slot bulkhead would legitimately tell the emitting call
+    and the probe apart by who came first): the extra request itself influences nothing."""
+    n = rng.choice([1, 1, 2, 2, 3, 4])
+    layers = [rng.choice(VARIANTS) for _ in range(n)]
+    at = rng.randrange(n)
+    if rng.random() < 0.85:
+        layers[at] = rng.choice(MIDCALL)
+    layers = ["hedge1" if l == "hedge" else l for l in layers]
+    inner = rng.choice(["strict", "strict", "strict", "climit", "buffer"])
+    header = "stack layers=%s inner=%s" % (",".join(layers), inner)
+    if inner == "climit":
+        header += " cl=16"
+    header += " lqe=%d lqat=%d lqinner=%s lp=%d" % (rng.choice([1, 2, 2, 3]), at, rng.choice(["0:ok", "0:ok", "5:ok", "0:err2"]),
+                                                    rng.choice([0, 0, 4, 6]))
+    ops = []
+    for c in range(1, rng.randint(2, 4)):
+        steps = _script(rng, rng.choice(["ok", "ok", "err1", "err2"]))
+        ops.append("arrive %d tag=%d inner=%s%s" % (c, 50 + c, ",".join(steps), rng.choice(["", "", " how=held", " keep=1"])))
+        ops += ["settle", "manual probes"]
+        for _ in range(2 * len(steps) + 3):
+            ops += ["adv %d" % rng.choice([5, 25, 25]), "settle", "manual probes", "manual probes"]
+    ops += ["probe probes", "probe listeners"]
+    return {"header": header, "ops": ops}
+
+
 def gen(rng, tier):
     r0 = rng.random()
     if 0.17 <= r0 < 0.24:
         return gen_probing_listener(rng)
+    if 0.24 <= r0 < 0.30:
+        return gen_same_key_kept(rng)
+    if 0.30 <= r0 < 0.36:
+        return gen_callpath_probe(rng)
     if r0 < 0.04:
         return gen_cache_same_key(rng)
     if r0 < 0.08:
@@ -261,9 +347,16 @@ def gen(rng, tier):
 
     nreq = rng.choice([1, 1, 2, 2, 3, 3, 4, 5])
     tags = rng.sample(range(1, 100), nreq)
+    if rng.random() < 0.15:
+        # requests that share a key (tag mod 1000: coalesce, cache) and are still told apart by their tags
+        tags = [tags[0] + 1000 * i if rng.random() < 0.7 else tags[i] for i in range(nreq)]
+    # callers that keep their finished call future (`keep=1`), released at some later point or at the end of the case; not
+    # over a small ConcurrencyLimit: tower's response future keeps its permit until it is dropped
+    keeping = rng.random() < 0.3 and not (inner == "climit" and " cl=16" not in header)
     ops = []
     nerr = 0
     live = []
+    kept = []
     for i in range(nreq):
         c = i + 1
         first = rng.choice(["ok", "ok", "ok", "ok", "ok", "err2", "err2", "err1", "err1"])
@@ -275,8 +368,13 @@ def gen(rng, tier):
         p = rng.choice([1, 1, 1, 2, 3])
         if p > 1:
             op += " polls=%d" % p
+        if keeping and rng.random() < 0.6:
+            op += " keep=1"
+            kept.append(c)
         ops.append(op)
         live.append(c)
+        if kept and rng.random() < 0.15:
+            ops.append("release %d" % kept.pop(rng.randrange(len(kept))))
         x = rng.random()
         if x < 0.45:
             ops.append("settle")
@@ -331,7 +429,7 @@ def _requests(case):
                 lat, _, out = part.partition(":")
                 steps.append((int(lat or 0), out))
             reqs[w[1]] = {"tag": k.get("tag", w[1]), "steps": steps, "how": k.get("how", "clone"),
-                          "polls": int(k.get("polls", "1")), "dropped": False}
+                          "polls": int(k.get("polls", "1")), "dropped": False, "keep": k.get("keep") == "1"}
         elif w[0] in ("drop",) and len(w) > 1 and w[1] in reqs:
             reqs[w[1]]["dropped"] = True
         elif w[0] == "dropall":
@@ -388,6 +486,82 @@ def hoarding_possible(cfg, layers):
     return False
 
 
+def layer_detaches(l):
+    """does the layer run the wrapped call in a task of its own (so that it may outlive the caller's future / answer)?"""
+    return BASE.get(l) in ("hedge", "executor") or l == "timelimiter_nocancel"
+
+
+def _key(tag):
+    """the key of the keyed layers (coalesce, cache) in the harness: the tag modulo 1000"""
+    return int(tag) % 1000 if str(tag).isdigit() else tag
+
+
+def keyed_interference(layers, reqs, lines, meta):
+    """Requests for which the protective condition of a KEYED layer may hold — decided from the observable history alone,
+    conservatively (a request listed here is only checked weakly, every other one in full):
+    * coalesce ("an identical request is in flight"): another request with the same key whose call overlaps this one's —
+      from its `call` at the top boundary to its answer (`result`) or its drop. A request whose answer has been delivered
+      is NOT in flight, whether or not its caller still keeps the finished future. (Above coalesce a layer that runs the
+      call in a task of its own — hedge, executor, time limiter without cancellation — keeps attempts in flight after the
+      caller was answered or dropped: then every earlier same-key request counts as possibly in flight);
+    * cache ("a response for the key is stored"): another request with the same key whose inner call completed `ok` before
+      this request's (last) call at a cache boundary.
+    -> {request id: set of same-key request ids}"""
+    has_co = "coalesce" in layers
+    detached = has_co and any(layer_detaches(l) for l in layers[:layers.index("coalesce")])
+    cache_b = [j for j, l in enumerate(layers) if l == "cache"]
+    if not (has_co or cache_b) or len(reqs) < 2:
+        return {}
+    by_key = {}
+    for c, rq in reqs.items():
+        by_key.setdefault(_key(rq["tag"]), []).append(c)
+    if all(len(v) < 2 for v in by_key.values()):
+        return {}
+    tag2c = {rq["tag"]: c for c, rq in reqs.items()}
+    INF = len(lines) + 1
+    start, end, cache_call, ok_done = {}, {}, {}, {}
+    for i, l in enumerate(lines):
+        _, w = tparse(l)
+        if len(w) >= 4 and w[1] == "call" and w[0][:1] == "b" and w[0][1:].isdigit():
+            c = tag2c.get(w[3])
+            if c is not None:
+                if w[0] == "b0":
+                    start.setdefault(c, i)
+                if int(w[0][1:]) in cache_b:
+                    cache_call[c] = i
+        elif len(w) >= 3 and w[0] == "result":
+            end.setdefault(w[1], i)
+        elif len(w) >= 4 and w[0] == "inner_done" and w[3] == "ok":
+            ok_done.setdefault(w[1], i)
+    for pos, m in meta:
+        w = m.split()
+        if len(w) >= 2 and w[0] == "#drop" and pos >= 0:
+            end.setdefault(w[1], pos)
+    out = {}
+    for cs in by_key.values():
+        if len(cs) < 2:
+            continue
+        for c in cs:
+            for q in cs:
+                if q == c or q not in start:
+                    continue
+                overlap = has_co and c in start and start[q] < end.get(c, INF) and (detached or end.get(q, INF) > start[c])
+                stored = c in cache_call and q in ok_done and ok_done[q] < cache_call[c]
+                if overlap or stored:
+                    out.setdefault(c, set()).update(cs)
+    return out
+
+
+def cache_hit_hoards(cfg, layers, reqs, lines, meta):
+    """A request answered from the cache never calls the instance below the cache that its caller polled ready: what that
+    instance reserved in `poll_ready` (a ConcurrencyLimit permit, a Buffer slot) stays reserved for as long as the caller
+    keeps the service instance (`how=held`) — tower's contract, not a layer's doing. With few permits other requests may
+    then wait for ever: an observation about the composition, like `hoarding_possible`."""
+    if cfg.get("inner", "strict") == "strict" or "cache" not in layers:
+        return False
+    return any(rq["how"] == "held" for rq in reqs.values()) and bool(keyed_interference(layers, reqs, lines, meta))
+
+
 def _results(lines):
     res = {}
     for l in lines:
@@ -429,11 +603,35 @@ def mon_readiness_contract(case, lines, meta):
         hours = sum(1 for w in ops if w[:1] == ["adv"] and int(w[1]) >= 3600000)
         if hours < nerr + 1:
             rounds = 0
-    if rounds >= 3 and not hoarding_possible(kvs(case["header"]), layers):
+    if rounds >= 3 and not hoarding_possible(kvs(case["header"]), layers) and not cache_hit_hoards(kvs(case["header"]), layers, reqs, lines, meta):
         for c, rq in reqs.items():
             if not rq["dropped"] and c not in res:
-                return "request %s (tag %s) never got an answer although every timer was let to expire (wedged)" % (c, rq["tag"])
+                why = ""
+                fin = [q for q, o in reqs.items() if q != c and _key(o["tag"]) == _key(rq["tag"]) and q in res and o["keep"]]
+                if fin:
+                    why = ("; request(s) %s with the same key had been answered and only their FINISHED futures are kept by their callers: "
+                           "a finished call is not in flight, nothing may wait for it" % ",".join(fin))
+                return "request %s (tag %s) never got an answer although every timer was let to expire (wedged)%s" % (c, rq["tag"], why)
     return None
+
+
+def hang_message(case, lines, meta):
+    """what a hung case (the harness's wall-clock watchdog fired) means for this property"""
+    cfg, layers = _cfg(case)
+    last, back = [], set()
+    for l in lines:
+        w = tparse(l)[1]
+        if w[:1] == ["pstart"] and "in-listener" in w:
+            last = w
+        elif w[:1] == ["pback"] and len(w) > 1:
+            back.add(w[1])
+    if last and last[1] not in back and last[-1] == "mid":
+        at = int(cfg.get("lqat", "0"))
+        return ("listeners only observe: a listener of layer %d (%s) re-entered the service (it sent probe request %s through the stack "
+                "from inside the listener) and the call never completes — neither the listener's request nor the call that emitted the "
+                "event returns, and the listeners registered after it are never told the event (is the event emitted while a "
+                "non-reentrant lock that the call path takes is held?)" % (at, layers[at] if at < len(layers) else "?", last[1]))
+    return "a call through the stack %s never returns" % ",".join(layers)
 
 
 _BLINE = re.compile(r"^b(\d+)$")
@@ -512,10 +710,20 @@ def mon_transparent(case, lines, meta):
             if not m or m.group(2) != tag or m.group(1) not in [k for _, k in calls.get(tag, [])]:
                 return "probe call %s (tag %s) was answered %s, which is not the response of one of its inner calls %s" % (
                     w[1], tag, w[2], [k for _, k in calls.get(tag, [])])
+    keyed = keyed_interference(layers, reqs, lines, meta)
     for c, rq in reqs.items():
         r = res.get(c)
         mine = calls.get(rq["tag"], [])
         if r is None or rq["dropped"]:
+            continue
+        if c in keyed:
+            # a keyed layer may legitimately answer with the response of a same-key request's call (coalesced / cached)
+            if r.startswith("ok:"):
+                m = re.match(r"^ok:(\d+):tag=(\d+)$", r)
+                same = {reqs[q]["tag"] for q in keyed[c]}
+                if not m or m.group(2) not in same or m.group(1) not in [k for _, k in calls.get(m.group(2), [])]:
+                    return "request %s (tag %s) was answered %s, which is not the response of an inner call made for its key (requests %s)" % (
+                        c, rq["tag"], r, sorted(keyed[c]))
             continue
         if r == "notready" or r.startswith("readyerr:"):
             if mine:
@@ -583,6 +791,8 @@ def mon_readiness_errors(case, lines, meta):
     # (inside a retry / reconnect attempt it is returned as the call's error; a hedge may win with another attempt)
     seen = sum(1 for r in res.values() if "ierr9:0" in r)
     dropped = any(r["dropped"] for r in _requests(case).values())
+    if "coalesce" in layers and keyed_interference(layers, _requests(case), lines, meta):
+        return None         # a coalesced request shares its leader's answer, the readiness error included
     if any(l in HEDGES_THAT_REPOLL for l in layers) or dropped:
         if seen > inner_err:
             return "%d answers carry the readiness error but the inner service failed poll_ready only %d times" % (seen, inner_err)
@@ -607,14 +817,22 @@ def _modulo_serial(r):
 
 def mon_listeners(case, lines, meta):
     """listeners only observe: same answers with and without panicking listeners, every listener sees every event"""
-    _, layers = _cfg(case)
+    cfg, layers = _cfg(case)
     reqs = _requests(case)
+    callpath = cfg.get("lqe", "0") != "0"
+    mid = set()         # probes made by a call-path listener: the emitting call is in flight, their outcome is not compared
     for i, l in enumerate(lines):
         _, w = tparse(l)
         if not w:
             continue
+        if w[0] == "pstart" and len(w) >= 4 and w[3] == "mid":
+            mid.add(w[1])
         if w[0] == "twin-mismatch":
             rq = reqs.get(w[1])
+            if callpath and len(w) > 3 and _modulo_serial(w[2]) == _modulo_serial(w[3]):
+                # the probe made inside a call-path listener takes its inner serial number before the emitting call's own
+                # inner call, the twin's probe (made after the step) after it: same answers up to the serial
+                continue
             if rq and len(w) > 3 and raced(layers, rq) and _modulo_serial(w[2]) == _modulo_serial(w[3]):
                 # Racing hedged attempts: which attempt's response is delivered first is decided by the order in which
                 # tokio runs tasks that became runnable at one instant; the two stacks share one runtime and the one
@@ -623,6 +841,13 @@ def mon_listeners(case, lines, meta):
                 continue
             return "line %d: request %s is answered %s with panicking listeners (mask %s) and %s without" % (
                 i, w[1], w[2], kvs(case["header"]).get("lp"), w[3] if len(w) > 3 else "?")
+        if w[0] == "presult" and len(w) >= 3 and w[1] in mid:
+            tw = kvs(l).get("twin", "?")
+            if w[2] == "pending" and tw not in ("pending", "none", "?"):
+                return ("line %d: the request a listener of layer %s (%s) sent through the service from inside the listener (probe %s) never "
+                        "completes; the same request made right after that step ends %s" % (
+                            i, cfg.get("lqat", "0"), layers[int(cfg.get("lqat", "0"))] if int(cfg.get("lqat", "0")) < len(layers) else "?", w[1], tw))
+            continue
         if w[0] == "presult" and len(w) >= 3:
             tw = kvs(l).get("twin", "?")
             if _modulo_serial(w[2]) != _modulo_serial(tw):
@@ -634,6 +859,10 @@ def mon_listeners(case, lines, meta):
             if len(set(counts)) != 1:
                 return "line %d: the three listeners were invoked %s times (a panicking listener kept others from being called?)" % (i, w[2])
             tw = kvs(l).get("twin")
+            if callpath and any(l2 in HEDGES_THAT_REPOLL for l2 in layers):
+                # racing hedged attempts + a probe made at a different moment than the twin's: how many attempts are
+                # started / cancelled (and with them how many events are emitted) is the scheduler's choice
+                tw = None
             if tw is not None and tw != w[2]:
                 return "line %d: listener counts %s with panicking listeners, %s without" % (i, w[2], tw)
     return None
@@ -688,6 +917,11 @@ def transitions(case, lines, meta=None):
             tags.append("probe")
         elif w[0] == "twin-mismatch":
             tags.append("twin-race-winner-differs")
+        elif w[0] == "pstart" and w[-1] == "mid":
+            if "in-listener" in w:
+                at = int(cfg.get("lqat", "0"))
+                tags.append("callpath-probe")
+                tags.append("callpath-probe-in-" + BASE.get(layers[at], layers[at]))
         elif w[0] == "pstart":
             tags.append("listener-probe")
             tags.append("listener-probe-over-" + BASE.get(layers[0], layers[0]))
@@ -713,8 +947,24 @@ def transitions(case, lines, meta=None):
         tags.append("late-first-poll")
         if any(BASE.get(l) == "timelimiter" for l in layers):
             tags.append("late-first-poll-timelimiter")
+    keyed = keyed_interference(layers, reqs, lines, meta or [])
+    if any(o.split()[:1] == ["release"] for o in case["ops"]):
+        tags.append("finished-future-released")
+    order = list(reqs)
     for c, rq in reqs.items():
         r = res.get(c, "none")
+        if rq["keep"]:
+            tags.append("finished-future-kept")
+        earlier = [q for q in order[:order.index(c)] if _key(reqs[q]["tag"]) == _key(rq["tag"])]
+        if earlier:
+            tags.append("same-key")
+            kl = [l for l in ("coalesce", "cache") if l in layers]
+            if c in keyed:
+                tags += ["same-key-joined-or-cached-" + l for l in kl]
+            else:
+                tags += ["same-key-forwarded-" + l for l in kl]
+                if any(reqs[q]["keep"] for q in earlier):
+                    tags += ["same-key-after-kept-finished-" + l for l in kl]
         if rq["how"] == "held":
             tags.append("held-instance")
         if rq["polls"] > 1:
@@ -753,8 +1003,11 @@ ALL_TR = (["layer-" + l for l in VARIANTS] + ["mw-" + l for l in THIRTEEN] +
            "readiness-error-in-attempt", "readyerr", "notready", "concurrent-inner-calls", "held-instance", "multi-poll",
            "dropped", "inner-dropped", "retried", "hedged", "ok-transparent", "err-transparent", "ok-triggered", "err-triggered", "probe",
            "inner-recovery", "inner-recovery-all-instances", "recovery-pending-under-retry", "late-first-poll", "late-first-poll-timelimiter",
-           "listener-probe", "probe-ok", "probe-err"] +
-          ["listener-probe-over-" + l for l in ("bulkhead", "circuit", "timelimiter", "retry", "fallback", "hedge")])
+           "listener-probe", "probe-ok", "probe-err", "finished-future-kept", "finished-future-released", "same-key",
+           "same-key-joined-or-cached-coalesce", "same-key-joined-or-cached-cache", "same-key-forwarded-coalesce", "same-key-forwarded-cache",
+           "same-key-after-kept-finished-coalesce", "same-key-after-kept-finished-cache", "callpath-probe"] +
+          ["listener-probe-over-" + l for l in ("bulkhead", "circuit", "timelimiter", "retry", "fallback", "hedge")] +
+          ["callpath-probe-in-" + l for l in ("chaos", "bulkhead", "ratelimiter", "circuit", "retry", "hedge", "timelimiter", "fallback")])
 
 LEVEL_NOTE = ("Trusted: Lean kernel; the transcription of each layer's call path as a transducer between boundary event streams in "
               "TR.Model.Stack (validated only by the sampled correspondence check); tower's BoxCloneService / MapErr adapters and the Tap "
@@ -785,11 +1038,13 @@ SPECS = {
                      ("c20-readiness-errors-surface", mon_readiness_errors)],
         # only the lines the Lean model reproduces are compared; until the model driver exists the monitors decide alone
         "canon": canon_boundary,
+        "hang_message": hang_message,
         "transitions": transitions,
         "nontrivial": nontrivial,
         "all_transitions": ALL_TR,
         "model_modules": ["TR.Model.Stack", "TR.Model.Listeners", "TR.Lemmas.Stack"],
-        "lean_files": ["TR.Model.Stack", "TR.Model.Listeners", "TR.Lemmas.Stack", "TR.Model.TimeLimiter", "TR.Lemmas.TimeLimiter"],
+        "lean_files": ["TR.Model.Stack", "TR.Model.Listeners", "TR.Lemmas.Stack", "TR.Model.TimeLimiter", "TR.Lemmas.TimeLimiter",
+                       "TR.Model.Coalesce", "TR.Lemmas.Coalesce"],
         "sizes": (600, 20000),
         "rule": "each of the thirteen middleware alone (plus timelimiter without cancellation, single-attempt / firing / parallel hedge), the "
                 "stacks of composition.rs and tower_primer.rs, and random stacks of 2-4 layers, over a strict contract-checking inner service "
@@ -799,7 +1054,12 @@ SPECS = {
                 "virtual time after every call (aimed at retry / reconnect attempts, 5 ms steps); call futures first polled an hour after call() "
                 "(sequential requests, time limiter in both modes forced into half of these stacks); a completion listener of the outermost layer "
                 "(bulkhead incl. one-slot reject / bounded-wait, circuit, time limiter, retry, fallback, hedge) that itself drives 1-3 probe calls "
-                "through a clone of the stack, compared with the same probes made right after the step in the twin; distinct = distinct implementation log; "
+                "through a clone of the stack, compared with the same probes made right after the step in the twin; callers that keep their FINISHED "
+                "call future (keep=1) and release it later or never, on every stack, with requests that share a key (tag mod 1000: coalesce, cache) "
+                "one after the other and overlapping; a listener of ANY event of ANY one layer (admission, rejection, retry, pass-through, attempt "
+                "started, and below the top also completion) that sends 1-3 requests through the whole stack from inside the listener (must come "
+                "back; outer answers and listener counts as in the twin); a hung case is cut off by the harness's wall-clock watchdog and reported "
+                "as a failing input; distinct = distinct implementation log; "
                 "non-trivial = a stack of >= 2 layers or a retry/hedge/readiness-pending/readiness-error/held-instance/listener-panic event",
         "trusted": ["transcription of the layers' call paths in TR.Model.Stack (sampled by the correspondence check)",
                     "harness: Tap at every boundary, strict inner service, twin stack, clock_gettime interposition, manual poller", "python monitors"],
@@ -815,7 +1075,11 @@ SPECS = {
                       "stretch, errors - never license a call; {listener_sees_final_state,release_after_emit_violates}: on a completion path that releases what "
                       "the finished call holds before it emits, a call made from inside / during a listener is admitted iff the same call right after the step is; "
                       "timelimiter_untriggered_never_times_out: a wrapped call faster than its timeout is never answered Timeout, however late the future is "
-                      "first polled (timer counts from the first poll, both modes). The model is tied to the code by replaying the boundary events the real stacks produce (Tap at every boundary) through it: "
+                      "first polled (timer counts from the first poll, both modes). coalesce_finished_call_is_not_joined (over the C11 model, from any state): "
+                      "the poll that completes a leader frees its key in that step, a later same-key request is forwarded as a call of its own - whether the "
+                      "finished future is kept or not is not even expressible; {reentrant_listener_only_observes,emit_under_lock_hangs,"
+                      "chaos_emit_inside_rng_lock_violates}: on every call path that never emits while holding its non-reentrant lock a listener that sends a "
+                      "request through the service changes nothing, and every path that does emit under the lock hangs with such a listener. The model is tied to the code by replaying the boundary events the real stacks produce (Tap at every boundary) through it: "
                       "an event the idiom cannot perform is a disagreement. Exactly-once forwarding, result wrappers, readiness errors surfacing and the "
                       "twin-stack listener comparison (answers, listener counts, and the probe calls made by a re-entrant completion listener vs. right "
                       "after the step) are decided by implementation-side monitors (not theorems).",
